@@ -12,6 +12,7 @@ import JominiModel.Proofs.TextTapeFaithful3
 import JominiModel.Proofs.TextTapeBlank
 import JominiModel.Proofs.TextTapeFaithfulOne
 import JominiModel.Proofs.TextDocFullEmbed
+import JominiModel.Proofs.TextTapeDomWf
 import JominiModel.Generated.Tables
 /-
 C01 — Text tape mirrors the document's structure regardless of layout.
@@ -416,6 +417,29 @@ example : parse (frenderF exampleFullArrMixed ++ [10]) = .ok (ftapeF exampleFull
 
 /-- `a=b c d`: a mixed top level is not accepted -/
 example : parse [97, 61, 98, 32, 99, 32, 100] = .err .eof := by decide +kernel
+
+/-! ### three arms of tape.rs no input reaches (coverage: tape.rs:538, 540, 562, 694-697)
+
+`GInv` (Proofs/TextTapeDomWf.lean) is an invariant of the main loop: it holds at the start
+(`C01_loop_invariant_init`) and every iteration keeps it (`C01_loop_invariant_step`); in every state
+it describes, `mixed_mode` is off in Key / KeyValueSeparator / ObjectValue and the innermost open
+container of a Key state is an `Object` token (`C01_key_state_facts`).  So `[b'=', ..] if mixed_mode`
+in KeyValueSeparator and the `Array` arms of the two `match self.token_tape.get(parent_ind)` that run
+in Key state are dead code — statements about the MODEL; the correspondence runs (15 000 malformed
+inputs, the exhaustive short inputs, the full-document generator) do not reach them either. -/
+
+theorem C01_loop_invariant_init : StInv St.init ∧ GInv St.init := ⟨StInv.init, GInv.init⟩
+
+theorem C01_loop_invariant_step (n : Nat) (st st' : St) (d d' : Bytes) (h1 : StInv st) (h2 : GInv st)
+    (h : stepAt n st d = .cont st' d') : StInv st' ∧ GInv st' :=
+  ⟨stepAt_inv h1 h, stepAt_g h2 h1 h⟩
+
+theorem C01_key_state_facts (st : St) (hG : GInv st) :
+    (st.state = .key ∨ st.state = .kvs ∨ st.state = .objectValue → st.mixed = false) ∧
+    (st.state = .key → st.parent ≠ 0 → ∃ e m, st.tape[st.parent]? = some (.object e m)) :=
+  ginv_key_facts hG
+
+example : GInv St.init := GInv.init
 
 /-! what the parser does on the shapes outside the document type -/
 
